@@ -711,6 +711,10 @@ def established_case(ctx, scenario_idx, lose_at, partial, case):
             bystander.take()
         outstanding_calls = [i for i, c in calls.items() if c['o'].fired == 0]
         done_before = {i: c['o'].fired for i, c in calls.items()}
+        # calls that failure handlers issued BEFORE the loss (a handler retrying after an error reply or a passed deadline)
+        # are ordinary calls: one that was concluded before the loss stays concluded, the others are failed by it
+        concluded_before = [o for o in reentrant if o.fired]
+        concluded_snapshot = [(o, o.fired, list(o.results)) for o in concluded_before]
         live_proxies = [i for i, p in proxies.items() if p['obj'] is not None]
         pending_proxies = [i for i, p in proxies.items() if p['obj'] is None and p['d'].fired == 0]
         peer.lose(loss)
@@ -758,7 +762,15 @@ def established_case(ctx, scenario_idx, lose_at, partial, case):
                                % (i, k, repr(v)[:100]), w, case)
                 else:
                     ctx.count('calls_failed_by_loss')
+        for o, fired_, results_ in concluded_snapshot:
+            if o.fired != fired_ or fired_ != 1:
+                ctx.report('call-fired-%d-times' % o.fired, 'a call issued and concluded before the loss (by the failure handler '
+                           'of another call) fired %d times before and %d times after it' % (fired_, o.fired), w, case)
+                break
+            ctx.count('retry_calls_concluded_before_the_loss')
         for o in reentrant:
+            if any(o is o_ for o_ in concluded_before):
+                continue
             if o.fired != 1 or o.results[0][0] != 'err' or not (o.results[0][1] is loss or o.results[0][1].value is loss.value):
                 w['reentrant'] = [[(k_, repr(v_.value if k_ == 'err' else v_)[:80]) for k_, v_ in x.results] for x in reentrant]
                 w['retried_calls'] = retried
